@@ -94,16 +94,17 @@ Lemma clamp_ok : forall t, ttl_ok t -> clamp_ttl t = t.
 Proof. intros t [H1 H2]. unfold clamp_ttl. destruct (t >? 2147483647) eqn:E; [|reflexivity]. apply Z.gtb_lt in E. lia. Qed.
 
 Definition plain (r : rr) : Prop :=
-  r_class r = cIN /\ r_type r <> tSOA /\ 0 <= r_name r /\ ttl_ok (r_ttl r).
+  r_class r = cIN /\ r_type r <> tSOA /\ 0 <= r_name r /\ ttl_ok (r_ttl r) /\ is_singleton (r_type r) = false.
 
 Lemma t_add_single : forall z r, plain r ->
   t_add false z (single r) = Ok (zput (rkey r) (add1 (look z (rkey r)) (r_ttl r) (r_data r)) z).
 Proof.
-  intros z r (Hc & Ht & Hn & Httl). unfold t_add, single, skey. cbn [s_class s_type s_name s_ttl s_data s_covers].
+  intros z r (Hc & Ht & Hn & Httl & Hsg). unfold t_add, single, skey. cbn [s_class s_type s_name s_ttl s_data s_covers].
   rewrite Hc. cbn [Z.eqb cIN Pos.eqb negb].
   apply Z.eqb_neq in Ht. rewrite Ht. cbn [andb].
   rewrite (clamp_ok _ Httl). unfold rkey, add1.
-  destruct (look z (r_name r, r_type r, r_covers r)) as [[ettl erds]|]; reflexivity.
+  destruct (look z (r_name r, r_type r, r_covers r)) as [[ettl erds]|]; [|reflexivity].
+  cbn [fold_left]. rewrite (rds_add_plain _ _ _ Hsg). reflexivity.
 Qed.
 
 Lemma t_del_single : forall z r, r_class r = cIN ->
